@@ -535,6 +535,7 @@ class Explorer(BaseExplorer):
         self.assumed_distinct = 0
         self.forced_ties = 0
         self.ties_taken = 0
+        self.zero_samples_taken = 0
         self.obligations = 0
         self.discharged = 0
         self.skipped_in_prefix = 0
@@ -634,6 +635,13 @@ class Explorer(BaseExplorer):
             r = self.branch_lin(lin, "==")
             if r:
                 self.ties_taken += 1
+            return r
+        if len(lin.t) == 1 and lin.c == 0:
+            # "this one sample is exactly 0" is a boundary value of the sample's domain, not a coincidence of two dates:
+            # explored in both tie modes
+            r = self.branch_lin(lin, "==")
+            if r:
+                self.zero_samples_taken += 1
             return r
         # forced-only: an equality PC does not force is assumed false
         w = self._get_witness()
